@@ -643,15 +643,27 @@ class Interp:
             return self.eval(m.assigns[node.id], Frame(None, m))
         if node.id in ("len", "sum", "abs", "float", "int", "isinstance", "max", "min",
                        "dict", "list", "tuple", "zip", "range", "str", "callable", "bool",
-                       "getattr", "hasattr", "set", "sorted", "enumerate", "any", "all"):
+                       "getattr", "hasattr", "set", "sorted", "enumerate", "any", "all", "next"):
             return ExtFunc("builtins." + node.id)
         raise Unsupported(f"unbound name {node.id}")
 
+    def _elements(self, node, fr):
+        out = []
+        for e in node.elts:
+            if isinstance(e, ast.Starred):              # [*parts, last]
+                v = self.eval(e.value, fr)
+                if not isinstance(v, (list, tuple)):
+                    raise Unsupported(f"*{ast.unparse(e.value)} is not a finite sequence in the model")
+                out.extend(v)
+            else:
+                out.append(self.eval(e, fr))
+        return out
+
     def e_Tuple(self, node, fr):
-        return tuple(self.eval(e, fr) for e in node.elts)
+        return tuple(self._elements(node, fr))
 
     def e_List(self, node, fr):
-        return [self.eval(e, fr) for e in node.elts]
+        return self._elements(node, fr)
 
     def e_Set(self, node, fr):
         return set(self.eval(e, fr) for e in node.elts)
@@ -1124,6 +1136,17 @@ class Interp:
             raise Unsupported(f"external function {dotted} has no semantic entry"
                               + (f" ({ast.unparse(node)})" if node else ""))
         return h(args, kwargs)
+
+    def x_builtins_next(self, a, k):
+        # next(<generator evaluated to a list>, default): the first item, or the default
+        seq = a[0]
+        if isinstance(seq, (list, tuple)):
+            if seq:
+                return seq[0]
+            if len(a) > 1:
+                return a[1]
+            raise Unsupported("next() of an empty sequence without a default")
+        raise Unsupported("next() of a value that is not a finite sequence in the model")
 
     def x_builtins_len(self, a, k):
         return self.length(a[0])
